@@ -162,6 +162,9 @@ def still_fails(prop, case: dict, oracle: str, known: list[dict]) -> Violation |
     return None
 
 
+PREFIX_SHRINK_TRIALS = 8
+
+
 def shrink(prop, case: dict, oracle: str, known: list[dict], budget: int = 400) -> tuple[dict, int]:
     tries = 0
     improved = True
@@ -416,9 +419,13 @@ def check(pid: str, tier: str, runs: int | None = None) -> int:
                 cand = write_replay(pid, rec["case"], v, original, 0, prefix_seeds=prefix, tier=tier)
                 if _replay_in_fresh_process(cand):
                     size = len(prefix) // 2
-                    while size >= 1 and len(prefix) > 1:
+                    trials = 0  # every trial re-executes the whole prefix in a fresh interpreter: a fixed small number
+                    while size >= 1 and len(prefix) > 1 and trials < PREFIX_SHRINK_TRIALS:
                         shrunk = False
                         for start in range(0, len(prefix), size):
+                            if trials >= PREFIX_SHRINK_TRIALS:
+                                break
+                            trials += 1
                             trial = prefix[:start] + prefix[start + size:]
                             write_replay(pid, rec["case"], v, original, 0, prefix_seeds=trial, tier=tier)
                             if _replay_in_fresh_process(cand):
